@@ -275,6 +275,21 @@ def run(chk: core.Check):
     for label, mk in libs:
         for t in table:
             run_stack(label, mk, [t])
+    # the SAME middleware object applied twice in a row (a stack may list an object twice; a long-lived program re-uses
+    # its middleware objects): the second result shares nothing with ITS input, the first result
+
+    def once(factory):
+        box = []
+
+        def get():
+            if not box:
+                box.append(factory())
+            return box[0]
+        return get
+    for label, mk in libs:
+        for name, factory in table:
+            same = once(factory)
+            run_stack(label, mk, [(name, same), (name, same)])
     # stacks that must always run: every pair of name middlewares (inverse pairs re-create earlier spellings/objects)
     names_mw = [t for t in table if t[0].split("(")[0] in ("SeparateCoAuthors", "SplitNameParts", "MergeNameParts", "MergeCoAuthors")]
     for label, mk in libs:
